@@ -34,7 +34,7 @@ ASSUMPTIONS = [
     "frames are compared by their reference reading (don't-care bits may differ between the reference encoder and pyairtouch's)",
     "only values the documents define are generated (no not-available codes in non-optional fields)",
 ]
-PROBES = ["c03.zero_records", "c03.request_kind", "c03.control_kind", "c03.status_kind", "c03.multibyte_utf8", "c03.zero_temperature", "c03.many_records", "c03.segmented_echo"]
+PROBES = ["c03.records_reordered", "c03.zero_records", "c03.request_kind", "c03.control_kind", "c03.status_kind", "c03.multibyte_utf8", "c03.zero_temperature", "c03.many_records", "c03.segmented_echo"]
 TRUSTED_BASE = ["ref/wire4.py, ref/wire5.py, ref/encode.py"]
 PER_RUN = 24
 
@@ -82,7 +82,10 @@ def generate(rng, index: int, tier: str) -> dict:
     tl = [{"at": 0.0, "op": "user.open"}]
     t = 1.0
     for f in frames:
-        tl.append({"at": t, "op": "console.raw", "hex": f.hex(), "input": True})
+        st = {"at": t, "op": "console.raw", "hex": f.hex(), "input": True}
+        if rng.random() < 0.35:
+            st["permute"] = rng.getrandbits(16)
+        tl.append(st)
         t += 0.5
     knobs = {"latency": rng.choice([0.0, G.TICK]), "first_packet_id": rng.randrange(256),
              "seg": rng.choice([{"mode": "whole"}, {"mode": "random", "seed": rng.getrandbits(16), "max": 4}, {"mode": "bytes"}])}
@@ -124,7 +127,17 @@ def execute(sc: dict) -> dict:
         ph = state["phase"].setdefault(idx, {"first": None, "second": None, "sent": None})
         if ph["first"] is None:
             ph["first"] = entry
-            step = {"op": "user.send_object", "at": t, "_obj": entry["message"], "policy": "idem"}
+            obj = entry["message"]
+            if steps[idx].get("permute") is not None:
+                # the same message with its records listed in another order (the order of a list is not part of any wire format
+                # with explicit or implicit record numbers)
+                import random as _r
+
+                alt = adapter.permute_records(obj, _r.Random(steps[idx]["permute"]))
+                if alt is not None:
+                    obj = alt
+                    ph["permuted"] = alt
+            step = {"op": "user.send_object", "at": t, "_obj": obj, "policy": "idem"}
             world.op_user_send_object(step)
         elif ph["second"] is None:
             ph["second"] = entry
@@ -194,7 +207,10 @@ def execute(sc: dict) -> dict:
         if fr2["to"] != to_want or fr2["frm"] != 0xB0 or fr2["type"] != frames[0]["type"]:
             V.append(viol("C03.header_fields", {"kind": k, "to": fr2["to"], "from": fr2["frm"], "type": fr2["type"]}, kind=k))
             break
-        if not _same_reading(gen, ref, r2):
+        permuted = ph.get("permuted") is not None
+        if permuted:
+            probes["c03.records_reordered"] = 1
+        if not _same_reading(gen, _by_id(ref) if permuted else ref, _by_id(r2) if permuted else r2):
             V.append(viol("C03.payload_changed", {"kind": k, "original": frames[0]["data"].hex(), "resent": fr2["data"].hex(),
                                                   "original_reading": repr(ref)[:300], "resent_reading": repr(r2)[:300]}, kind=k, gen=gen))
             break
@@ -210,7 +226,11 @@ def execute(sc: dict) -> dict:
             break
         m1, m2 = ph["first"]["message"], ph["second"]["message"]
         h2 = ph["second"]["header"]
-        if m1 != m2:
+        if permuted:
+            if adapter.records_multiset(ph["permuted"]) != adapter.records_multiset(m2) and adapter.records_multiset(m1) != adapter.records_multiset(m2):
+                V.append(viol("C03.roundtrip_message_differs", {"kind": k, "sent": repr(ph["permuted"])[:300], "second": repr(m2)[:300], "reordered": True}, kind=k, gen=gen))
+                break
+        elif m1 != m2:
             V.append(viol("C03.roundtrip_message_differs", {"kind": k, "first": repr(m1)[:300], "second": repr(m2)[:300]}, kind=k, gen=gen))
             break
         if getattr(h2, "message_length", None) != len(fr2["data"]) or getattr(h2, "message_id", None) != fr2["type"] or getattr(h2, "packet_id", None) != fr2["pid"]:
@@ -234,6 +254,20 @@ def _has_zero_temp(r) -> bool:
 
 
 _IGNORE = {"pad", "b1hi", "keep0", "why", "rlen"}
+
+
+def _by_id(r):
+    """A reading with every record list sorted by the record's own number (record order carries no meaning)."""
+    if isinstance(r, dict):
+        return {k: _by_id(v) for k, v in r.items()}
+    if isinstance(r, list):
+        items = [_by_id(x) for x in r]
+        if items and all(isinstance(x, dict) for x in items):
+            for key in ("ac", "zone", "group"):
+                if all(key in x for x in items):
+                    return sorted(items, key=lambda x: x[key])
+        return items
+    return r
 
 
 def _same_reading(gen: int, a, b) -> bool:
